@@ -72,7 +72,10 @@ def eval_shift(case):
     dts = np.diff(ts)
     dmin = dts[dts > 0].min()
     delta = 4 * EPS * (abs(case["shift"]) + abs(t).max()) / dmin  # relative rounding of a shifted dt
-    tol_u = AMPLIFY * len(t) * delta * draw + 1e-12 * abs(m_i)
+    # rounding of the linear solve itself: eps * cond(A) * |u| with cond(A) <= 1 + 4 nx^2 dt a_max
+    a_max = 1.0 if cls == "ideal" else float(np.max(a.alpha_scaled(np.linspace(m_f[0], m_i, 201))))
+    cond = 1 + 4 * (case["nx"] + 1) ** 2 * float(dts.max()) * a_max
+    tol_u = AMPLIFY * len(t) * delta * draw + (1e-12 + 8 * EPS * cond) * abs(m_i)
     viol = []
     d = np.max(np.abs(u - us), axis=1)  # one entry per pair of states, in lock step
     i = int(np.argmax(d))
